@@ -427,4 +427,60 @@ func TestDemoF16DeafClient(t *testing.T) {
 	}
 }
 
+func TestDemoF18DeafClientOnStraySession(t *testing.T) {
+	ln, err := net.Listen("tcp", "127.0.0.1:0")
+	if err != nil {
+		t.Fatal(err)
+	}
+	defer ln.Close()
+	var accepts int32
+	go func() {
+		for {
+			conn, err := ln.Accept()
+			if err != nil {
+				return
+			}
+			n := atomic.AddInt32(&accepts, 1)
+			go func() {
+				defer conn.Close()
+				dec := json.NewDecoder(conn)
+				var v map[string]interface{}
+				_ = dec.Decode(&v)
+				_, _ = conn.Write([]byte(`{"id":"s","from":"srv@d/i","state":"authenticating","schemeOptions":["guest"]}`))
+				_ = dec.Decode(&v)
+				_, _ = conn.Write([]byte(`{"id":"s","from":"srv@d/i","to":"c@d/i","state":"established"}`))
+				if n == 1 {
+					time.Sleep(50 * time.Millisecond)
+					_, _ = conn.Write([]byte(`{"id":"s","from":"srv@d/i","state":"established"}`)) // a stray, non-terminal session envelope
+				}
+				time.Sleep(3 * time.Second)
+			}()
+		}
+	}()
+	client := NewClientBuilder().UseTCP(ln.Addr(), nil).Build()
+	defer client.Close()
+	ctx, cancel := context.WithTimeout(context.Background(), time.Second)
+	defer cancel()
+	if err := client.Establish(ctx); err != nil {
+		t.Fatal(err)
+	}
+	client.mu.RLock()
+	ch := client.channel
+	client.mu.RUnlock()
+	select {
+	case <-ch.RcvDone():
+	case <-time.After(time.Second):
+		t.Fatal("receiver should have ended on the session envelope")
+	}
+	time.Sleep(300 * time.Millisecond)
+	if client.channelOK() && atomic.LoadInt32(&accepts) == 1 {
+		client.mu.RLock()
+		same := client.channel == ch
+		client.mu.RUnlock()
+		if same {
+			t.Errorf("F18: receiver goroutine is gone (stray non-terminal session envelope), yet the client still counts the channel as established and never rebuilds it (deaf client, spinning listener)")
+		}
+	}
+}
+
 var _ = tls.Config{}
